@@ -16,6 +16,8 @@ set_option match.ignoreUnusedAlts true
 theorem Semver.Gen.names_as_expected : True := trivial
 
 /-! ### The crate's data types have the shape of the model's types -/
+/-- every data type is declared as the translation expects, token for token (field and payload types, integer widths, order) -/
+theorem Semver.Gen.declarations_as_expected : True := trivial
 -- enum Bound (2 variants)
 def Semver.Gen.shape_Bound : Semver.Bound → Unit
   | Semver.Bound.lo (_ : Semver.Pred) => ()
@@ -91,28 +93,80 @@ def Semver.Ident.rs_fmt (self : Semver.Ident) : (List Char) := Id.run do
   return f
 instance : Rust.RDisplay Semver.Ident := ⟨Semver.Ident.rs_fmt⟩
 
-/-- `Version::is_prerelease` (lib.rs:377-379) -/
+/-- `Version::is_prerelease` (lib.rs:330-332) -/
 def Semver.Version.rs_is_prerelease (self : Semver.Version) : Bool :=
   (!(Rust.is_empty self.pre))
 
-/-- `Version::eq` (lib.rs:501-506) -/
+/-- `Version::eq` (lib.rs:454-459) -/
 def Semver.Version.rs_eq (self : Semver.Version) (other : Semver.Version) : Bool :=
   ((((Rust.REq.eq self.major other.major) && (Rust.REq.eq self.minor other.minor)) && (Rust.REq.eq self.patch other.patch)) && (Rust.REq.eq self.pre other.pre))
 instance : Rust.REq Semver.Version := ⟨Semver.Version.rs_eq⟩
 
--- UNTRANSLATABLE Semver.Version.rs_cmp : the crate's own trait `JsNumber` declares a method `cmp`: the call `.cmp(..)` may resolve to it
+/-- `Version::cmp` (lib.rs:585-614) -/
+def Semver.Version.rs_cmp (self : Semver.Version) (other : Semver.Version) : Ordering := Id.run do
+  match (Rust.ROrd.cmp self.major other.major) with
+  | Ordering.eq =>
+    pure ()
+  | order_result =>
+    return order_result
+  match (Rust.ROrd.cmp self.minor other.minor) with
+  | Ordering.eq =>
+    pure ()
+  | order_result =>
+    return order_result
+  match (Rust.ROrd.cmp self.patch other.patch) with
+  | Ordering.eq =>
+    pure ()
+  | order_result =>
+    return order_result
+  return (match ((Rust.len self.pre), (Rust.len other.pre)) with
+      | (0, 0) => Ordering.eq
+      | (0, _) => Ordering.gt
+      | (_, 0) => Ordering.lt
+      | (_, _) => (Rust.ROrd.cmp self.pre other.pre))
+instance : Rust.ROrd Semver.Version := ⟨Semver.Version.rs_cmp⟩
 
 /-- `impl PartialOrd for Version` is `Some(self.cmp(other))`: `<`, `<=`, `>`, `>=` are those of `cmp` -/
 theorem Semver.Gen.partial_cmp_is_cmp_Version : True := trivial
 
-/-- `Version::hash` (lib.rs:512-517) -/
+/-- `Version::hash` (lib.rs:465-470) -/
 /- the values fed to the hasher, in order -/
 def Semver.Version.rs_hash (self : Semver.Version) :=
   (self.major, self.minor, self.patch, self.pre)
 
--- UNTRANSLATABLE Semver.Version.rs_diff : the crate's own trait `JsNumber` declares a method `cmp`: the call `.cmp(..)` may resolve to it
+/-- `Version::diff` (lib.rs:384-450) -/
+def Semver.Version.rs_diff (self : Semver.Version) (other : Semver.Version) : (Option Semver.VersionDiff) := Id.run do
+  let cmp_result := (Rust.ROrd.cmp self other)
+  if (Rust.REq.eq cmp_result Ordering.eq) then
+    return none
+  let self_higher := (Rust.REq.eq cmp_result Ordering.gt)
+  let high_version := (if self_higher then self else other)
+  let low_version := (if self_higher then other else self)
+  let high_has_pre := (Semver.Version.rs_is_prerelease high_version)
+  let low_has_pre := (Semver.Version.rs_is_prerelease low_version)
+  if (low_has_pre && (!high_has_pre)) then
+    if ((Rust.REq.eq low_version.patch 0) && (Rust.REq.eq low_version.minor 0)) then
+      return (some Semver.VersionDiff.major)
+    if (Rust.ne high_version.patch 0) then
+      return (some Semver.VersionDiff.patch)
+    if (Rust.ne high_version.minor 0) then
+      return (some Semver.VersionDiff.minor)
+    return (some Semver.VersionDiff.major)
+  if (Rust.ne self.major other.major) then
+    if high_has_pre then
+      return (some Semver.VersionDiff.preMajor)
+    return (some Semver.VersionDiff.major)
+  if (Rust.ne self.minor other.minor) then
+    if high_has_pre then
+      return (some Semver.VersionDiff.preMinor)
+    return (some Semver.VersionDiff.minor)
+  if (Rust.ne self.patch other.patch) then
+    if high_has_pre then
+      return (some Semver.VersionDiff.prePatch)
+    return (some Semver.VersionDiff.patch)
+  return (some Semver.VersionDiff.preRelease)
 
-/-- `VersionDiff::fmt` (lib.rs:330-340) -/
+/-- `VersionDiff::fmt` (lib.rs:283-293) -/
 def Semver.VersionDiff.rs_fmt (self : Semver.VersionDiff) : (List Char) := Id.run do
   let mut f : List Char := []
   match self with
@@ -133,7 +187,7 @@ def Semver.VersionDiff.rs_fmt (self : Semver.VersionDiff) : (List Char) := Id.ru
   return f
 instance : Rust.RDisplay Semver.VersionDiff := ⟨Semver.VersionDiff.rs_fmt⟩
 
-/-- `Version::fmt` (lib.rs:521-543) -/
+/-- `Version::fmt` (lib.rs:474-496) -/
 def Semver.Version.rs_fmt (self : Semver.Version) : (List Char) := Id.run do
   let mut f : List Char := []
   f := f ++ (Rust.display self.major ++ ['.'] ++ Rust.display self.minor ++ ['.'] ++ Rust.display self.patch)
@@ -153,106 +207,106 @@ def Semver.Version.rs_fmt (self : Semver.Version) : (List Char) := Id.run do
   return f
 instance : Rust.RDisplay Semver.Version := ⟨Semver.Version.rs_fmt⟩
 
-/-- `Version::from` (lib.rs:550-558) -/
+/-- `Version::from` (lib.rs:503-511) -/
 def Semver.Version.rs_from_u8x3 (arg1 : (Nat × Nat × Nat)) : Semver.Version :=
   let (major, minor, patch) := arg1
   ({ major := (Rust.as_u64 major), minor := (Rust.as_u64 minor), patch := (Rust.as_u64 patch), build := [], pre := [] } : Semver.Version)
 
-/-- `Version::from` (lib.rs:562-570) -/
+/-- `Version::from` (lib.rs:515-523) -/
 def Semver.Version.rs_from_u8x4 (arg1 : (Nat × Nat × Nat × Nat)) : Semver.Version :=
   let (major, minor, patch, pre_release) := arg1
   ({ major := (Rust.as_u64 major), minor := (Rust.as_u64 minor), patch := (Rust.as_u64 patch), build := [], pre := [(Semver.Ident.num (Rust.as_u64 pre_release))] } : Semver.Version)
 
-/-- `Version::from` (lib.rs:550-558) -/
+/-- `Version::from` (lib.rs:503-511) -/
 def Semver.Version.rs_from_u16x3 (arg1 : (Nat × Nat × Nat)) : Semver.Version :=
   let (major, minor, patch) := arg1
   ({ major := (Rust.as_u64 major), minor := (Rust.as_u64 minor), patch := (Rust.as_u64 patch), build := [], pre := [] } : Semver.Version)
 
-/-- `Version::from` (lib.rs:562-570) -/
+/-- `Version::from` (lib.rs:515-523) -/
 def Semver.Version.rs_from_u16x4 (arg1 : (Nat × Nat × Nat × Nat)) : Semver.Version :=
   let (major, minor, patch, pre_release) := arg1
   ({ major := (Rust.as_u64 major), minor := (Rust.as_u64 minor), patch := (Rust.as_u64 patch), build := [], pre := [(Semver.Ident.num (Rust.as_u64 pre_release))] } : Semver.Version)
 
-/-- `Version::from` (lib.rs:550-558) -/
+/-- `Version::from` (lib.rs:503-511) -/
 def Semver.Version.rs_from_u32x3 (arg1 : (Nat × Nat × Nat)) : Semver.Version :=
   let (major, minor, patch) := arg1
   ({ major := (Rust.as_u64 major), minor := (Rust.as_u64 minor), patch := (Rust.as_u64 patch), build := [], pre := [] } : Semver.Version)
 
-/-- `Version::from` (lib.rs:562-570) -/
+/-- `Version::from` (lib.rs:515-523) -/
 def Semver.Version.rs_from_u32x4 (arg1 : (Nat × Nat × Nat × Nat)) : Semver.Version :=
   let (major, minor, patch, pre_release) := arg1
   ({ major := (Rust.as_u64 major), minor := (Rust.as_u64 minor), patch := (Rust.as_u64 patch), build := [], pre := [(Semver.Ident.num (Rust.as_u64 pre_release))] } : Semver.Version)
 
-/-- `Version::from` (lib.rs:550-558) -/
+/-- `Version::from` (lib.rs:503-511) -/
 def Semver.Version.rs_from_u64x3 (arg1 : (Nat × Nat × Nat)) : Semver.Version :=
   let (major, minor, patch) := arg1
   ({ major := (Rust.as_u64 major), minor := (Rust.as_u64 minor), patch := (Rust.as_u64 patch), build := [], pre := [] } : Semver.Version)
 instance : Rust.RInto (Nat × Nat × Nat) Semver.Version := ⟨Semver.Version.rs_from_u64x3⟩
 
-/-- `Version::from` (lib.rs:562-570) -/
+/-- `Version::from` (lib.rs:515-523) -/
 def Semver.Version.rs_from_u64x4 (arg1 : (Nat × Nat × Nat × Nat)) : Semver.Version :=
   let (major, minor, patch, pre_release) := arg1
   ({ major := (Rust.as_u64 major), minor := (Rust.as_u64 minor), patch := (Rust.as_u64 patch), build := [], pre := [(Semver.Ident.num (Rust.as_u64 pre_release))] } : Semver.Version)
 instance : Rust.RInto (Nat × Nat × Nat × Nat) Semver.Version := ⟨Semver.Version.rs_from_u64x4⟩
 
-/-- `Version::from` (lib.rs:550-558) -/
+/-- `Version::from` (lib.rs:503-511) -/
 def Semver.Version.rs_from_usizex3 (arg1 : (Nat × Nat × Nat)) : Semver.Version :=
   let (major, minor, patch) := arg1
   ({ major := (Rust.as_u64 major), minor := (Rust.as_u64 minor), patch := (Rust.as_u64 patch), build := [], pre := [] } : Semver.Version)
 
-/-- `Version::from` (lib.rs:562-570) -/
+/-- `Version::from` (lib.rs:515-523) -/
 def Semver.Version.rs_from_usizex4 (arg1 : (Nat × Nat × Nat × Nat)) : Semver.Version :=
   let (major, minor, patch, pre_release) := arg1
   ({ major := (Rust.as_u64 major), minor := (Rust.as_u64 minor), patch := (Rust.as_u64 patch), build := [], pre := [(Semver.Ident.num (Rust.as_u64 pre_release))] } : Semver.Version)
 
-/-- `Version::from` (lib.rs:580-592) -/
+/-- `Version::from` (lib.rs:533-545) -/
 def Semver.Version.rs_from_i8x3 (arg1 : (Int × Int × Int)) : Semver.Version := Id.run do
   let (major, minor, patch) := arg1
   return ({ major := (Rust.as_u64 major), minor := (Rust.as_u64 minor), patch := (Rust.as_u64 patch), build := [], pre := [] } : Semver.Version)
 
-/-- `Version::from` (lib.rs:596-609) -/
+/-- `Version::from` (lib.rs:549-562) -/
 def Semver.Version.rs_from_i8x4 (arg1 : (Int × Int × Int × Int)) : Semver.Version := Id.run do
   let (major, minor, patch, pre_release) := arg1
   return ({ major := (Rust.as_u64 major), minor := (Rust.as_u64 minor), patch := (Rust.as_u64 patch), build := [], pre := [(Semver.Ident.num (Rust.as_u64 pre_release))] } : Semver.Version)
 
-/-- `Version::from` (lib.rs:580-592) -/
+/-- `Version::from` (lib.rs:533-545) -/
 def Semver.Version.rs_from_i16x3 (arg1 : (Int × Int × Int)) : Semver.Version := Id.run do
   let (major, minor, patch) := arg1
   return ({ major := (Rust.as_u64 major), minor := (Rust.as_u64 minor), patch := (Rust.as_u64 patch), build := [], pre := [] } : Semver.Version)
 
-/-- `Version::from` (lib.rs:596-609) -/
+/-- `Version::from` (lib.rs:549-562) -/
 def Semver.Version.rs_from_i16x4 (arg1 : (Int × Int × Int × Int)) : Semver.Version := Id.run do
   let (major, minor, patch, pre_release) := arg1
   return ({ major := (Rust.as_u64 major), minor := (Rust.as_u64 minor), patch := (Rust.as_u64 patch), build := [], pre := [(Semver.Ident.num (Rust.as_u64 pre_release))] } : Semver.Version)
 
-/-- `Version::from` (lib.rs:580-592) -/
+/-- `Version::from` (lib.rs:533-545) -/
 def Semver.Version.rs_from_i32x3 (arg1 : (Int × Int × Int)) : Semver.Version := Id.run do
   let (major, minor, patch) := arg1
   return ({ major := (Rust.as_u64 major), minor := (Rust.as_u64 minor), patch := (Rust.as_u64 patch), build := [], pre := [] } : Semver.Version)
 
-/-- `Version::from` (lib.rs:596-609) -/
+/-- `Version::from` (lib.rs:549-562) -/
 def Semver.Version.rs_from_i32x4 (arg1 : (Int × Int × Int × Int)) : Semver.Version := Id.run do
   let (major, minor, patch, pre_release) := arg1
   return ({ major := (Rust.as_u64 major), minor := (Rust.as_u64 minor), patch := (Rust.as_u64 patch), build := [], pre := [(Semver.Ident.num (Rust.as_u64 pre_release))] } : Semver.Version)
 
-/-- `Version::from` (lib.rs:580-592) -/
+/-- `Version::from` (lib.rs:533-545) -/
 def Semver.Version.rs_from_i64x3 (arg1 : (Int × Int × Int)) : Semver.Version := Id.run do
   let (major, minor, patch) := arg1
   return ({ major := (Rust.as_u64 major), minor := (Rust.as_u64 minor), patch := (Rust.as_u64 patch), build := [], pre := [] } : Semver.Version)
 instance : Rust.RInto (Int × Int × Int) Semver.Version := ⟨Semver.Version.rs_from_i64x3⟩
 
-/-- `Version::from` (lib.rs:596-609) -/
+/-- `Version::from` (lib.rs:549-562) -/
 def Semver.Version.rs_from_i64x4 (arg1 : (Int × Int × Int × Int)) : Semver.Version := Id.run do
   let (major, minor, patch, pre_release) := arg1
   return ({ major := (Rust.as_u64 major), minor := (Rust.as_u64 minor), patch := (Rust.as_u64 patch), build := [], pre := [(Semver.Ident.num (Rust.as_u64 pre_release))] } : Semver.Version)
 instance : Rust.RInto (Int × Int × Int × Int) Semver.Version := ⟨Semver.Version.rs_from_i64x4⟩
 
-/-- `Version::from` (lib.rs:580-592) -/
+/-- `Version::from` (lib.rs:533-545) -/
 def Semver.Version.rs_from_isizex3 (arg1 : (Int × Int × Int)) : Semver.Version := Id.run do
   let (major, minor, patch) := arg1
   return ({ major := (Rust.as_u64 major), minor := (Rust.as_u64 minor), patch := (Rust.as_u64 patch), build := [], pre := [] } : Semver.Version)
 
-/-- `Version::from` (lib.rs:596-609) -/
+/-- `Version::from` (lib.rs:549-562) -/
 def Semver.Version.rs_from_isizex4 (arg1 : (Int × Int × Int × Int)) : Semver.Version := Id.run do
   let (major, minor, patch, pre_release) := arg1
   return ({ major := (Rust.as_u64 major), minor := (Rust.as_u64 minor), patch := (Rust.as_u64 patch), build := [], pre := [(Semver.Ident.num (Rust.as_u64 pre_release))] } : Semver.Version)
@@ -306,7 +360,18 @@ def Semver.Bound.rs_predicate (self : Semver.Bound) : Semver.Pred :=
   | (Semver.Bound.lo p) => p
   | (Semver.Bound.up p) => p)
 
--- UNTRANSLATABLE Semver.Bound.rs_cmp : the crate's own trait `JsNumber` declares a method `cmp`: the call `.cmp(..)` may resolve to it
+/-- `Bound::cmp` (range.rs:302-355) -/
+def Semver.Bound.rs_cmp (self : Semver.Bound) (other : Semver.Bound) : Ordering :=
+  (match (self, other) with
+  | ((Semver.Bound.lo Semver.Pred.unb), (Semver.Bound.lo Semver.Pred.unb)) | ((Semver.Bound.up Semver.Pred.unb), (Semver.Bound.up Semver.Pred.unb)) => Ordering.eq
+  | ((Semver.Bound.up Semver.Pred.unb), _) | (_, (Semver.Bound.lo Semver.Pred.unb)) => Ordering.gt
+  | ((Semver.Bound.lo Semver.Pred.unb), _) | (_, (Semver.Bound.up Semver.Pred.unb)) => Ordering.lt
+  | ((Semver.Bound.up (Semver.Pred.inc v1)), (Semver.Bound.up (Semver.Pred.inc v2))) | ((Semver.Bound.up (Semver.Pred.inc v1)), (Semver.Bound.lo (Semver.Pred.inc v2))) | ((Semver.Bound.up (Semver.Pred.exc v1)), (Semver.Bound.up (Semver.Pred.exc v2))) | ((Semver.Bound.lo (Semver.Pred.inc v1)), (Semver.Bound.up (Semver.Pred.inc v2))) | ((Semver.Bound.lo (Semver.Pred.inc v1)), (Semver.Bound.lo (Semver.Pred.inc v2))) | ((Semver.Bound.lo (Semver.Pred.exc v1)), (Semver.Bound.lo (Semver.Pred.exc v2))) => (Rust.ROrd.cmp v1 v2)
+  | ((Semver.Bound.lo (Semver.Pred.exc v1)), (Semver.Bound.up (Semver.Pred.exc v2))) | ((Semver.Bound.lo (Semver.Pred.inc v1)), (Semver.Bound.up (Semver.Pred.exc v2))) => (if (Rust.le v2 v1) then Ordering.gt else Ordering.lt)
+  | ((Semver.Bound.up (Semver.Pred.inc v1)), (Semver.Bound.lo (Semver.Pred.exc v2))) | ((Semver.Bound.lo (Semver.Pred.exc v1)), (Semver.Bound.up (Semver.Pred.inc v2))) => (if (Rust.lt v2 v1) then Ordering.gt else Ordering.lt)
+  | ((Semver.Bound.lo (Semver.Pred.exc v1)), (Semver.Bound.lo (Semver.Pred.inc v2))) | ((Semver.Bound.up (Semver.Pred.inc v1)), (Semver.Bound.up (Semver.Pred.exc v2))) => (if (Rust.lt v1 v2) then Ordering.lt else Ordering.gt)
+  | ((Semver.Bound.lo (Semver.Pred.inc v1)), (Semver.Bound.lo (Semver.Pred.exc v2))) | ((Semver.Bound.up (Semver.Pred.exc v1)), (Semver.Bound.lo (Semver.Pred.exc v2))) | ((Semver.Bound.up (Semver.Pred.exc v1)), (Semver.Bound.lo (Semver.Pred.inc v2))) | ((Semver.Bound.up (Semver.Pred.exc v1)), (Semver.Bound.up (Semver.Pred.inc v2))) => (if (Rust.le v1 v2) then Ordering.lt else Ordering.gt))
+instance : Rust.ROrd Semver.Bound := ⟨Semver.Bound.rs_cmp⟩
 
 /-- `impl PartialOrd for Bound` is `Some(self.cmp(other))`: `<`, `<=`, `>`, `>=` are those of `cmp` -/
 theorem Semver.Gen.partial_cmp_is_cmp_Bound : True := trivial
@@ -511,7 +576,7 @@ def Semver.Range.rs_fmt (self : Semver.Range) : (List Char) := Id.run do
   return f
 instance : Rust.RDisplay Semver.Range := ⟨Semver.Range.rs_fmt⟩
 
-/-- `Version::satisfies` (lib.rs:372-374) -/
+/-- `Version::satisfies` (lib.rs:325-327) -/
 def Semver.Version.rs_satisfies (self : Semver.Version) (range : Semver.Range) : Bool :=
   (Semver.Range.rs_satisfies range self)
 
@@ -600,31 +665,31 @@ def Semver.PErr.rs_add_context (self : Semver.PErr) (_input : (List Char)) (_tok
 def Semver.PErr.rs_from_external_error (_input : (List Char)) (_kind : Unit) (e : Semver.PErr) : Semver.PErr :=
   e
 
-/-- closure of `number()` (line 762) -/
+/-- closure of `number()` (line 715) -/
 def Semver.Gen.number_check (copied : (List Char)) (raw : (List Char)) : (Except Semver.PErr Nat) := do
   let value ← (Rust.map_err (Rust.str_parse_u64 raw) (fun e => ({ rest := copied, ctx := none, kind := (some (Rust.parse_int_error_kind e)) } : Semver.PErr)))
   if (Rust.gt value Semver.MAX_SAFE_INTEGER) then
     throw ({ rest := copied, ctx := none, kind := (some (Semver.EKind.maxInt value)) } : Semver.PErr)
   pure value
 
-/-- parser `number` (lib.rs:758-781) -/
+/-- parser `number` (lib.rs:711-734) -/
 def Semver.Gen.number : Winnow.Parser Nat := do
   let copied ← Winnow.getInput
   (Winnow.context "number component" (Winnow.tryMap (Winnow.take Winnow.digit1) (Semver.Gen.number_check copied)))
 
-/-- closure of `identifier()` (line 748) -/
+/-- closure of `identifier()` (line 701) -/
 def Semver.Gen.identifier_classify (s : (List Char)) : Semver.Ident :=
   (Rust.unwrap_or_else (Rust.map (Rust.str_parse_u64 s) Semver.Ident.num) (fun _err => (Semver.Ident.alpha s)))
 
-/-- parser `identifier` (lib.rs:745-756) -/
+/-- parser `identifier` (lib.rs:698-709) -/
 def Semver.Gen.identifier : Winnow.Parser Semver.Ident := fun input =>
   (Winnow.context "identifier" (Winnow.map (Winnow.takeWhile1 (fun x => ((Rust.is_ascii_alphanumeric x) || (Rust.REq.eq x ('-'))))) Semver.Gen.identifier_classify)) input
 
-/-- parser `pre_release` (lib.rs:739-743) -/
+/-- parser `pre_release` (lib.rs:692-696) -/
 def Semver.Gen.pre_release : Winnow.Parser (List Semver.Ident) := fun input =>
   (Winnow.context "pre_release version" (Winnow.preceded (Winnow.opt (Winnow.literal ['-'])) (Winnow.separated1 Semver.Gen.identifier (Winnow.literal ['.'])))) input
 
-/-- parser `build` (lib.rs:733-737) -/
+/-- parser `build` (lib.rs:686-690) -/
 def Semver.Gen.build : Winnow.Parser (List Semver.Ident) := fun input =>
   (Winnow.context "build version" (Winnow.preceded (Winnow.literal ['+']) (Winnow.separated1 Semver.Gen.identifier (Winnow.literal ['.'])))) input
 
@@ -634,22 +699,22 @@ inductive Semver.Gen.Extras where
   | Release (x0 : (List Semver.Ident))
   | ReleaseAndBuild (x0 : ((List Semver.Ident) × (List Semver.Ident)))
 
-/-- `Extras::values` (lib.rs:671-678) -/
+/-- `Extras::values` (lib.rs:624-631) -/
 def Semver.Gen.Extras.rs_values (self : Semver.Gen.Extras) : ((List Semver.Ident) × (List Semver.Ident)) :=
   (match self with
   | (Semver.Gen.Extras.Release ident) => (ident, [])
   | (Semver.Gen.Extras.Build ident) => ([], ident)
   | (Semver.Gen.Extras.ReleaseAndBuild ident) => ident)
 
-/-- parser `extras` (lib.rs:707-722) -/
+/-- parser `extras` (lib.rs:660-675) -/
 def Semver.Gen.extras : Winnow.Parser ((List Semver.Ident) × (List Semver.Ident)) := fun input =>
   (Winnow.map (Winnow.opt (Winnow.alt [(Winnow.map (Winnow.seq2 Semver.Gen.pre_release Semver.Gen.build) Semver.Gen.Extras.ReleaseAndBuild), (Winnow.map Semver.Gen.pre_release Semver.Gen.Extras.Release), (Winnow.map Semver.Gen.build Semver.Gen.Extras.Build)])) (fun extras => (match extras with | (some extras) => (Semver.Gen.Extras.rs_values extras) | _ => default))) input
 
-/-- parser `version_core` (lib.rs:725-730) -/
+/-- parser `version_core` (lib.rs:678-683) -/
 def Semver.Gen.version_core : Winnow.Parser (Nat × Nat × Nat) := fun input =>
   (Winnow.context "version core" (Winnow.map (Winnow.seq5 Semver.Gen.number (Winnow.literal ['.']) Semver.Gen.number (Winnow.literal ['.']) Semver.Gen.number) (fun (major, _, minor, _, patch) => (major, minor, patch)))) input
 
-/-- parser `version` (lib.rs:685-705) -/
+/-- parser `version` (lib.rs:638-658) -/
 def Semver.Gen.version : Winnow.Parser Semver.Version := fun input =>
   (Winnow.context "version" (Winnow.map (Winnow.seq6 (Winnow.opt (Winnow.alt [(Winnow.literal ['v']), (Winnow.literal ['V'])])) Winnow.space0 Semver.Gen.version_core Semver.Gen.extras Winnow.space0 Winnow.eof) (fun (_, _, (major, minor, patch), (pre_release, build), _, _) => ({ major := major, minor := minor, patch := patch, pre := pre_release, build := build } : Semver.Version)))) input
 
@@ -771,7 +836,7 @@ def Semver.SemverError.rs_location (self : Semver.SemverError) : (Nat × Nat) :=
   let column_number := (Rust.ptr_diff (Rust.index_from self.input (Semver.SemverError.rs_offset self)) line)
   (line_number, column_number))
 
-/-- `Version::parse` (lib.rs:386-423) -/
+/-- `Version::parse` (lib.rs:339-376) -/
 def Semver.Version.rs_parse (input : (List Char)) : (Except Semver.SemverError Semver.Version) := do
   let original := input
   let mut input := original
@@ -797,7 +862,7 @@ def Semver.Range.rs_parse (input : (List Char)) : (Except Semver.SemverError Sem
   | (Except.error err) =>
     throw (match err with | (Winnow.ErrMode.Backtrack e) | (Winnow.ErrMode.Cut e) => ({ input := (Rust.into input), offset := (Rust.span_offset (Rust.into ((Rust.ptr_diff e.input input), (0 : Nat)))), kind := (match e.kind with | (some kind) => kind | _ => (match e.context with | (some ctx) => (Semver.EKind.context ctx) | _ => Semver.EKind.other)) } : Semver.SemverError) | (Winnow.ErrMode.Incomplete _) => ({ input := (Rust.into input), offset := (Rust.span_offset (Rust.into (((Rust.len input) - 1), (0 : Nat)))), kind := Semver.EKind.incompleteInput } : Semver.SemverError))
 
-/-- `Version::from_str` (lib.rs:620-622) -/
+/-- `Version::from_str` (lib.rs:573-575) -/
 def Semver.Version.rs_from_str (s : (List Char)) : (Except Semver.SemverError Semver.Version) := do
   (Semver.Version.rs_parse s)
 
